@@ -430,7 +430,9 @@ def check_search(m, f, schema, res_wl, res_bound):
     if marker[0] == 'mark':
         res_wl.sites += 1
         init = s.arrays[marker[1]]['init']
-        if init and init[0] == 'ctor' and len(init[2]) >= 2 and strip_cast(init[2][1]) == ('bool', False):
+        # vector<bool>(n, false) or vector<bool>(n): value-initialised elements are false
+        only_size = init and init[0] == 'ctor' and len([x for x in init[2] if not (x[0] == 'ctor' and 'allocator' in x[1])]) == 1
+        if init and init[0] == 'ctor' and ((len(init[2]) >= 2 and strip_cast(init[2][1]) == ('bool', False)) or only_size):
             res_wl.ok(None)
         else:
             fail(res_wl, 'init', s.arrays[marker[1]]['node'], 'the mark array is not initialised to false')
@@ -995,10 +997,11 @@ def rule_enumpaths(m):
                         body = set(g.descendants(lp['body']))
                         a = [n for n in calls_in(g, gtt, VS, 'push') if n['i'] in body]
                         b = [n for n in calls_in(g, gtt, PS, 'push') if n['i'] in body]
-                        if len(a) == 1 and len(b) == 1 and unmove(gtt.t(a[0]['args'][0])) == lv and \
+                        if len(a) == 1 and len(b) == 1 and a[0].get('args') and unmove(gtt.t(a[0]['args'][0])) == lv and \
                                 g.region(a[0]['i']) == g.region(b[0]['i']) and \
                                 not (g.region(a[0]['i']) - g.region(lp['loopvarstmt'])):
-                            out.append((r[2], strip_cast(gtt.t(b[0]['args'][0])), lp))
+                            pushed = strip_cast(gtt.t(b[0]['args'][0])) if b[0].get('args') else ('ctor', 'std::list<unsigned int>', ())
+                            out.append((r[2], pushed, lp))
                             claimed |= {a[0]['i'], b[0]['i']}
                     loose = [n for n in calls_in(g, gtt, VS, 'push') + calls_in(g, gtt, PS, 'push') if n['i'] not in claimed]
                     return None if loose else out
